@@ -221,7 +221,7 @@ def f64_transcendental(ex, st, callee, args, m):
     return f(*args)
 
 
-@model(r'^(?:std::f64::|core::f64::)?<impl f64>::(abs|is_nan|is_infinite|is_finite|min|max|floor|ceil|round|trunc|sqrt|is_sign_negative|is_sign_positive|fract|signum|to_bits|from_bits|clamp)$')
+@model(r'^(?:std::f64::|core::f64::)?<impl f64>::(abs|is_nan|is_infinite|is_finite|is_normal|is_subnormal|min|max|floor|ceil|round|trunc|sqrt|is_sign_negative|is_sign_positive|fract|signum|to_bits|from_bits|clamp)$')
 def f64_misc(ex, st, callee, args, m):
     """f64 helper methods with IEEE semantics (min/max ignore a NaN operand)"""
     f = m.group(1); a = args[0]; b = args[1] if len(args) > 1 else None
@@ -229,6 +229,8 @@ def f64_misc(ex, st, callee, args, m):
     if f == 'is_nan': return fpIsNaN(a)
     if f == 'is_infinite': return z3.fpIsInf(a)
     if f == 'is_finite': return Not(Or(fpIsNaN(a), z3.fpIsInf(a)))
+    if f == 'is_normal': return z3.fpIsNormal(a)
+    if f == 'is_subnormal': return z3.fpIsSubnormal(a)
     if f == 'is_sign_negative': return z3.fpIsNegative(a)
     if f == 'min': return If(fpIsNaN(a), b, If(fpIsNaN(b), a, If(fpLT(b, a), b, a)))
     if f == 'max': return If(fpIsNaN(a), b, If(fpIsNaN(b), a, If(fpGT(b, a), b, a)))
